@@ -124,6 +124,103 @@ def sliceChk (m : Mode) (k : UK) : Except Err Unit :=
   | some 0 => .error .undefinedError
   | _ => .ok ()
 
+/-! ## Questions to the undefined behaviour, and computations that consult the mode only by asking
+
+`HQ` = one call of a helper of `UndefinedBehavior` (or of one of the inline mode tests of the VM
+/ `Environment::format`).  `Comp α` is a computation whose *only* access to the mode is asking
+such questions: a free monad over `HQ`.  Everything in the VM model that depends on the mode is
+written as a `Comp`, so "depends on the mode only through the helpers" holds by construction and
+monotonicity is one generic lemma (`MJ.Undef.Comp.run_mono`). -/
+
+inductive HQ where
+  | handleUndefined (parentWasUndefined : Bool)
+  | isTrue (k : UK)
+  | assertIterable (k : UK)
+  | tryIter (k : UK)
+  | assertNotUndef (k : UK)
+  | emit (k : UK)
+  | envFormat (k : UK)
+  | slice (k : UK)
+  deriving DecidableEq, Repr
+
+def unitOk : Except Err Unit → Except Err Bool
+  | .ok _ => .ok true
+  | .error e => .error e
+
+/-- the answer under mode `m`: an error, or `Ok` with a payload (`true`, except that
+    `Environment::format` answers whether the formatter is consulted) -/
+def HQ.run (q : HQ) (m : Mode) : Except Err Bool :=
+  match q with
+  | .handleUndefined p => unitOk (MJ.Undef.handleUndefined m p)
+  | .isTrue k => unitOk (isTrueChk m k)
+  | .assertIterable k => unitOk (MJ.Undef.assertIterable m k)
+  | .tryIter k => unitOk (tryIterChk m k)
+  | .assertNotUndef k => unitOk (MJ.Undef.assertNotUndef m k)
+  | .emit k => unitOk (emitChk m k)
+  | .envFormat k => MJ.Undef.envFormat m k
+  | .slice k => unitOk (sliceChk m k)
+
+inductive Comp (α : Type) where
+  | pure (a : α)
+  | fail (e : Err)
+  /-- ask `q`; an error answer is reported as `onErr e` (`.map_err(..)`, `BadInclude`), an `Ok`
+      answer continues with `k` -/
+  | ask (q : HQ) (onErr : Err → Err) (k : Bool → Comp α)
+
+namespace Comp
+def run {α : Type} (m : Mode) : Comp α → Except Err α
+  | .pure a => .ok a
+  | .fail e => .error e
+  | .ask q onErr k => match q.run m with
+    | .error e => .error (onErr e)
+    | .ok b => (k b).run m
+
+def bind {α β : Type} : Comp α → (α → Comp β) → Comp β
+  | .pure a, f => f a
+  | .fail e, _ => .fail e
+  | .ask q g k, f => .ask q g (fun b => (k b).bind f)
+
+instance : Monad Comp where
+  pure := Comp.pure
+  bind := Comp.bind
+
+/-- a mode-independent computation -/
+def ofExcept {α : Type} : Except Err α → Comp α
+  | .ok a => .pure a
+  | .error e => .fail e
+
+/-- ask and ignore the payload -/
+def chk (q : HQ) : Comp Unit := .ask q id (fun _ => .pure ())
+
+/-- ask several questions in order -/
+def chks : List HQ → Comp Unit
+  | [] => .pure ()
+  | q :: r => .ask q id (fun _ => chks r)
+
+/-- replace every error of the computation (`.map_err(..)`), those of the questions included -/
+def mapErr {α : Type} (f : Err → Err) : Comp α → Comp α
+  | .pure a => .pure a
+  | .fail e => .fail (f e)
+  | .ask q g k => .ask q (fun e => f (g e)) (fun b => (k b).mapErr f)
+
+/-- does the computation ask anything at all? -/
+def isPure {α : Type} : Comp α → Bool
+  | .ask .. => false
+  | _ => true
+
+/-- the errors the questions of the computation can be reported as -/
+def AskErr {α : Type} : Comp α → Err → Prop
+  | .pure _, _ => False
+  | .fail _, _ => False
+  | .ask _ g k, e => e = g .undefinedError ∨ ∃ b, AskErr (k b) e
+
+/-- no question has its error rewritten -/
+def PlainAsks {α : Type} : Comp α → Prop
+  | .pure _ => True
+  | .fail _ => True
+  | .ask _ g k => g = id ∧ ∀ b, PlainAsks (k b)
+end Comp
+
 /-! ## Abstract mode-indexed machine
 
 A program is anything that picks its next step from the *state alone* (straight-line code,
